@@ -611,7 +611,8 @@ def corpus_resume(tier, seed, rnd):
         elif len(ks) > 40:
             ks = sorted(rnd.sample(ks, 40))
         for fk in ks:
-            route = rnd.choice(["bytes", "dict", "live_dict", "path"])
+            # every route for every configuration, rotating over the fault points (not left to chance)
+            route = ["bytes", "dict", "live_dict", "path", "live_dict"][(k + base_cfgs.index(c)) % 5]
             p = {"cfg": c, "fault_k": fk, "route": route}
             if rnd.random() < 0.15:
                 p["fault_k2"] = rnd.choice([1, 2, 3, 5])
